@@ -57,9 +57,9 @@ claimed = {
   note="Decides the algorithm in z_chan.go as written, not the compiled artefact; schedules sampled not enumerated; one protocol-level finding (select on unbuffered channels) is listed and keyed separately.",
   design="§3 C10, Appendix A/B"),
  "C11": dict(
-  technique="schedule exploration with a deterministic scheduler over the lifted semaphore / notify-list source, with counting invariants and a quiescence (lost wake-up) check",
-  text="sema_llgo.go from the working tree runs against stand-in mutex/cond/once/atomics that are scheduling points; rapid draws acquire/release and Cond-shaped ticket/wait/notify scripts for 2-4 threads plus all scheduling decisions; invariants: acquires bounded by initial + releases, Wait returns only when a notification can cover its ticket, nobody stays blocked at quiescence while its wake-up condition holds. Exploration.",
-  note="Fairness/liveness only in safety form; compiled sync/atomic stress programs are not part of this job.",
+  technique="(a) schedule exploration with a deterministic scheduler over the lifted semaphore / notify-list source, with counting invariants and a quiescence (lost wake-up) check; (b) rapid-generated litmus programs compiled by the llgo under test and run on hardware threads, observed outcomes checked against the exhaustively enumerated set of sequentially consistent interleavings",
+  text="(a) sema_llgo.go from the working tree runs against stand-in mutex/cond/once/atomics that are scheduling points; rapid draws acquire/release and Cond-shaped ticket/wait/notify scripts for 2-4 threads plus all scheduling decisions; invariants: acquires bounded by initial + releases, Wait returns only when a notification can cover its ticket, nobody stays blocked at quiescence while its wake-up condition holds. (b) litmus programs of 2-4 goroutines x 1-3 sync/atomic operations (Store/Load/Add/Swap/CompareAndSwap, function API, typed atomics and atomic.Pointer) on 2-3 variables, from ten classic shapes with substitutions or random, 60000 rounds each (thorough 400000) at O0 and O2; every observed outcome must be producible by some interleaving. Exploration.",
+  note="Fairness/liveness only in safety form; (b) is one-sided (a forbidden outcome proves a violation, its absence proves nothing) and is observed on x86-64 only; compiled Mutex/RWMutex/WaitGroup/Once/Cond stress programs are not part of these jobs.",
   design="§3 C11, Appendix A"),
  "C04": dict(
   technique="differential testing of rapid-generated programs (defer/panic/recover/Goexit statement language) against gc, compared per unit",
@@ -91,6 +91,11 @@ claimed = {
   text="rapid generates signatures of 1-10 parameters mixing all scalar kinds with by-value structs (1-40 bytes, nested, mixed int/float eightbytes, arrays) for Go-calls-C functions and C-calls-Go callbacks; generated C (compiled by clang) and Go (compiled by the llgo under test at O0 and O2) each fold every received scalar into an FNV checksum; the checksums, struct returns and callback results must equal the values the harness computes from the drawn argument values. Exploration only; host x86-64.",
   note="x86-64 only (the host); the registers-exhausted aggregate class is a listed finding and is generated in dedicated units; strings/slices/variadics/closures with context are not generated.",
   design="§3 C09"),
+ "C15": dict(
+  technique="differential testing of rapid-generated programs (type-pool grammar with values; reflect walker and fmt verb matrix) against gc, compared line by line per type",
+  text="rapid generates 8-22 named types in two packages (named basics, structs with tags / unexported / embedded value and pointer fields, generic structs and instances, named interfaces, named composites, a recursive struct, 0-3 methods on value and pointer receivers incl. String/Error/GoString) plus 4-10 unnamed composites, 1-3 values each; the program walks every type with reflect (kind, name, string, PkgPath, fields, tags, index paths, VisibleFields, method tables by index and by constant and computed name, implements/assignable/convertible, composite constructors), exercises the values (getters, Set/Convert/Append/MakeMap/MakeSlice/MakeChan round trips, every method through Value.Method and through a pointer, DeepEqual) and formats them with ~40 fmt verbs/flags, in three modes that vary which reflect entry points the program mentions (method-table pruning). Output under llgo (O0) must equal gc's. Exploration only.",
+  note="gc 1.24 is the reference; O0 only; excluded by construction: sizes/offsets of types containing func values, anything printing an address, byte/rune type arguments (C07 finding), structs ending in a zero-size field (C08 finding); four listed findings are mapped line by line (main package path, named func types, func Set round trip, nil pointer receivers not dereferenced).",
+  design="§3 C15, §7"),
 }
 not_yet = "check not built yet in this session (see DESIGN.md §3 for the planned generated-input check)"
 
